@@ -101,6 +101,7 @@ func main() {
 	workers := fs.Int("workers", 16, "parallel workers")
 	qt := fs.Int("qtimeout", 10000, "solver timeout per query (ms)")
 	sched := fs.String("sched", "canonical", "canonical | explore")
+	schedRev := fs.Bool("schedrev", false, "rotate through the threads in descending order")
 	preempt := fs.Int("preempt", 2, "preemption bound (explore)")
 	maxPaths := fs.Int("maxpaths", 0, "path limit per harness (0 = none)")
 	maxConcr := fs.Int("maxconcr", 1024, "max values per concretisation")
@@ -165,10 +166,10 @@ func main() {
 		os.Exit(2)
 	}
 	cfg := &Config{Unwind: *unwind, MaxSteps: *maxSteps, AllocCeiling: *ceiling, Workers: *workers, QueryTimeout: *qt,
-		Sched: *sched, Preempt: *preempt, MaxPaths: *maxPaths, MaxConcr: *maxConcr, ReverseMaps: *revMaps, Race: *race, Verbose: *verbose}
+		Sched: *sched, SchedRev: *schedRev, Preempt: *preempt, MaxPaths: *maxPaths, MaxConcr: *maxConcr, ReverseMaps: *revMaps, Race: *race, Verbose: *verbose}
 	ro := &RunOutput{Pkg: *pkg, LoadSec: loadSec, Config: map[string]any{
 		"unwind": *unwind, "maxsteps": *maxSteps, "alloc_ceiling": *ceiling, "workers": *workers, "query_timeout_ms": *qt,
-		"sched": *sched, "preempt": *preempt, "maxpaths": *maxPaths, "maxconcr": *maxConcr, "reverse_maps": *revMaps, "race": *race}}
+		"sched": *sched, "schedrev": *schedRev, "preempt": *preempt, "maxpaths": *maxPaths, "maxconcr": *maxConcr, "reverse_maps": *revMaps, "race": *race}}
 	cfg.DumpDir, cfg.DumpEvery, cfg.DumpMax = *dumpDir, *dumpEvery, *dumpMax
 	cfg.Bounds = map[string]int64{}
 	for _, kv := range strings.Split(*boundsFlag, ",") {
